@@ -77,6 +77,14 @@ def run(chk):
     chk.call(r5_library, chk)
     chk.call(r6_collection, chk)
     chk.call(r7_empty_shapes, chk)
+    # R8: "reads back, under the same key": the record file stores the encoded bytes under the encoded key with the lengths
+    # it wrote (block header = len(key), len(value) of exactly the bytes written; get reads that extent) - the clause C02.R4
+    # decides for UKVFile.put / map_blocks / get, evaluated under this property's name.
+    from . import c02
+
+    put, mapb, get = (prog.func(f"{c02.UKV}:UKVFile.{n}") for n in ("put", "map_blocks", "get"))
+    chk.analysed(put, mapb, get)
+    chk.borrow("C01.R8", c02.r4_block_header, chk, put, mapb, get)
 
 
 # ---------------------------------------------------------------------------
